@@ -244,6 +244,27 @@ def couplers(plan, run, violate, stats):
             violate('coupler_composition', 'penalty or_ is %r where members are %r, %r at %r' % (po, p1(x), p2(x), x), where='coupler')
         if (pn > 0) != (c1(x) < 0):
             violate('coupler_composition', 'penalty not_ is %r where the condition is %r at %r' % (pn, c1(x), x), where='coupler')
+    # one coupler object used for several functions (bind = inner(c); F = bind(f); G = bind(g)): every coupled function keeps meaning
+    # its own composition whatever was coupled before or after it -- checked in a seeded interleaving of couplings and calls
+    r2 = sub_rng(plan['seed'], 'couplers.reuse')
+    quad2 = gen.gen_quad(r2, dim)
+    f2 = lambda x: env._quad(quad2, x) + 1.0
+    g2 = lambda x: [v - 3.0 for v in x]
+    binds = {'inner': cp.inner(c), 'outer': cp.outer(c), 'additive': cp.additive(p)}
+    want = {'inner': lambda fn, x: fn(c(list(x))), 'outer': lambda fn, x: c(fn(list(x))), 'additive': lambda fn, x: fn(x) + p(x)}
+    fns = {'inner': [f, f2], 'outer': [g, g2], 'additive': [f, f2]}
+    coupled = []
+    for _ in range(r2.randint(3, 8)):
+        if not coupled or r2.random() < 0.4:
+            k = r2.choice(['inner', 'outer', 'additive']); j = r2.randrange(2)
+            coupled.append((k, j, binds[k](fns[k][j])))
+        k, j, F = r2.choice(coupled)
+        x = [gen.r2(r2, -4, 4) for _ in range(dim)]
+        stats['coupler_checks'] += 1
+        a = F(list(x)); b = want[k](fns[k][j], x)
+        if (list(a) != list(b)) if k == 'outer' else (a != b):
+            violate('coupler_composition', '%s coupler applied to %d function(s) so far: the coupled function #%d gives %r, its definition %r at %r'
+                    % (k, len([1 for q in coupled if q[0] == k]), j, a, b, x), where='coupler')
 
 
 def simplify(plan):
